@@ -31,9 +31,11 @@ POOL = {
     "CH3OH": ({"C": 1, "H": 4, "O": 1}, 0), "HCOOH": ({"H": 2, "C": 1, "O": 2}, 0), "HOOH": ({"H": 2, "O": 2}, 0),
     "#CH3OH": ({"C": 1, "H": 4, "O": 1}, 0), "CH3OH2+": ({"C": 1, "H": 5, "O": 1}, 1),
     # several charge states of one base, both signs
+    # dust grains of one group in three charge states
+    "GRAIN0": ({"GRAIN": 1}, 0), "GRAIN-": ({"GRAIN": 1}, -1), "GRAIN+": ({"GRAIN": 1}, 1),
     "O--": ({"O": 1}, -2), "C--": ({"C": 1}, -2), "C-": ({"C": 1}, -1), "Si++": ({"Si": 1}, 2), "Si+++": ({"Si": 1}, 3),
 }
-ELEMENTS = ["H", "D", "He", "C", "O", "Si", "S"]
+ELEMENTS = ["H", "D", "He", "C", "O", "Si", "S", "GRAIN"]
 
 
 def total(names):
@@ -90,6 +92,8 @@ FIXED = [
     {"reactions": [(["oH2", "H+"], ["pH2", "H+"]), (["oH3+", "HD"], ["oH2D+", "oH2"]), (["H2D+", "E"], ["H", "H", "D"])], "required": ["He"]},
     {"reactions": [(["CH3OH"], ["CH3", "OH"]), (["HCOOH"], ["HCO", "OH"]), (["HOOH"], ["OH", "OH"]), (["CH3OH2+", "e-"], ["CH3OH", "H"]),
                    (["CH3OH"], ["#CH3OH"]), (["H", "O"], ["OH"]), (["C", "H"], ["CH"])], "required": []},
+    {"reactions": [(["GRAIN0", "e-"], ["GRAIN-"]), (["GRAIN-", "H+"], ["GRAIN0", "H"]), (["GRAIN+", "e-"], ["GRAIN0"]), (["GRAIN0", "H+"], ["GRAIN+", "H"]),
+                   (["H", "H"], ["H2"])], "required": []},
     {"reactions": [(["O-", "e-"], ["O--"]), (["O--", "H+"], ["O-", "H"]), (["C--", "He++"], ["C", "He"]), (["C-", "e-"], ["C--"]),
                    (["Si+++", "e-"], ["Si++"]), (["Si++", "O--"], ["SiO"]), (["O", "e-"], ["O-"])], "required": []},
     {"reactions": [(["He++", "e-"], ["He+"]), (["He+", "e-"], ["He", "PHOTON"]), (["H-", "H+"], ["H", "H"]), (["H", "CR"], ["H+", "e-"])], "required": []},
@@ -191,7 +195,7 @@ def check_desc(res, model, desc, rng, tag, channel_b=False):
         if body_h != "#ifdef IDX_ELEM_H return GetElementAbund(y, IDX_ELEM_H); #else return 0.0; #endif":
             res.corr_disagreements += 1
             res.violation("correspondence", f"GetHNuclei is not written as the hydrogen element total of GetElementAbund: {body_h!r}", case)
-        atoms = {s.name for s in a.species if s.name in ELEMENTS}
+        atoms = {s.name for s in a.species if s.name in ELEMENTS} | ({"GRAIN"} if any(s.name == "GRAIN0" for s in a.species) else set())
         if set(found) != atoms:
             res.violation("oracle", f"GetElementAbund handles {sorted(found)} but the atomic species are {sorted(atoms)}", case)
         # conservation of the rendered Fex too
